@@ -292,6 +292,18 @@ def contingency(ctx, i):
     # ---- property predicates on the implementation ----
     keep = set(counts["tp_count"].dims)
     reduced = (set(fcst.dims) | set(obs.dims)) - keep
+    if not reduced:
+        # nothing reduced: a pair valid in both has exactly one of the four maps equal to 1 and total 1; any other pair is NaN everywhere
+        f, o = xr.broadcast(fcst, obs)
+        valid = like((f.notnull() & o.notnull()), counts["tp_count"]).values
+        four = np.stack([np.asarray(counts[k].values, float) for k in COUNT_KEYS[:4]])
+        tot = np.asarray(counts["total_count"].values, float)
+        ok_valid = ((four == 0) | (four == 1)).all(axis=0) & (four.sum(axis=0) == 1) & (tot == 1)
+        ok_invalid = np.isnan(four).all(axis=0) & np.isnan(tot)
+        if not np.where(valid, ok_valid, ok_invalid).all():
+            ctx.violation("with no dimension reduced a pair is not classified exactly once (valid) / not NaN in every map (invalid)", desc,
+                          "one-hot on valid pairs, NaN elsewhere", {k: np.asarray(counts[k].values).tolist() for k in COUNT_KEYS})
+        ctx.count("contingency:pointwise_checked")
     if reduced:
         exp = direct_counts(fcst, obs, tt, oo, keep)
         for key in COUNT_KEYS:
